@@ -25,6 +25,12 @@ def run(ctx):
     # W13: many writers of one channel attribute
     jobs.append((binary, hooks, seeds[37], 0, None, None, 25 if ctx.quick else 200, ctx.quick, ["settings"]))
     jobs.append((binary, hooks, seeds[36], 2000 if hooks else 0, 2, None, 15 if ctx.quick else 100, ctx.quick, ["settings"]))
+    # W15: pairs of operators kick / demote each other
+    jobs.append((binary, hooks, seeds[33], 0, None, None, 40 if ctx.quick else 300, ctx.quick, ["mutual"]))
+    jobs.append((binary, hooks, seeds[32], 2000 if hooks else 0, 2, None, 25 if ctx.quick else 150, ctx.quick, ["mutual"]))
+    # W14: queries against writers
+    jobs.append((binary, hooks, seeds[35], 0, None, None, 4 if ctx.quick else 25, ctx.quick, ["readers"]))
+    jobs.append((binary, hooks, seeds[34], 0, 2, None, 4 if ctx.quick else 25, ctx.quick, ["readers"]))
     # W12: PRIVMSG's activity update under lock contention (3 s of idling per round)
     jobs.append((binary, hooks, seeds[39], 0, None, None, 2 if ctx.quick else 8, ctx.quick, ["idle"]))
     jobs.append((binary, hooks, seeds[38], 0, 2, None, 2 if ctx.quick else 8, ctx.quick, ["idle"]))
